@@ -1217,9 +1217,12 @@ class ChoicePayloadDecoder(ConstructedPayloadDecoderBase):
                     **dict(options, allowEoo=True))
 
             else:
+                # tag and length of the chosen alternative have been consumed
+                # already: whatever follows is its contents, which may well
+                # start with alternative's own end-of-octets sentinel
                 iterator = decodeFun(
                     substrate, asn1Object.componentType.tagMapUnique,
-                    tagSet, length, state, **dict(options, allowEoo=True))
+                    tagSet, length, state, **options)
 
             for component in iterator:
 
